@@ -54,6 +54,9 @@ def run(pid, tier, spec, replay_file=None, write=True, clear=True):
             if not os.path.exists(cases_path):
                 raise Infra('case emission failed:\n' + out[-3000:])
             lines = open(cases_path).read().splitlines()
+            if spec.get('case_filter'):
+                lines = [x for x in lines if spec['case_filter'](json.loads(x))]
+                open(cases_path, 'w').write('\n'.join(lines) + '\n')
             cap = spec.get('quick_cap') if tier == 'quick' else spec.get('thorough_cap')
             if cap and len(lines) > cap:
                 rnd = random.Random(seed())
